@@ -358,7 +358,8 @@ def check_gr_unknown(run, pkg):
     it = gr_interp(pkg, "float64", "spam")
     fq = short(it.fi.qual)
     raises = [e for e in it.events if e.kind == "raise" and not e.loops]
-    reach_ret = [r for r in it.returns]
+    # a return that can only execute after a raise on the same path (e.g. a raise inside a helper interpreted in place) is dead
+    reach_ret = [r for r in it.returns if not any(e.seq < r.seq and set(e.guards) <= set(r.guards) for e in raises)]
     ok = True if (bool(raises) and not reach_ret) else None
     # a return reached without any undecided test of the (folded) kind string: definite
     if reach_ret and any(not [g for g, _ in r.guards if C("spam") in set(walk(g))] for r in reach_ret):
